@@ -6,13 +6,13 @@ from core import verdicts as core_verdicts
 PID = "C06"
 
 
-def _cfg(depth, ill, extra="", focus="all"):
-    return ("CONSTANTS\n NP = 2\n NE = 1\n Depth = %d\n IllTyped = %s\n Focus = \"%s\"\nINIT Init\nNEXT Next\n"
+def _cfg(depth, ill, extra="", focus="all", sim=False):
+    return ("CONSTANTS\n NP = 2\n NE = 1\n Depth = %d\n IllTyped = %s\n Sim = " + ("TRUE" if sim else "FALSE") + "\n Focus = \"%s\"\nINIT Init\nNEXT Next\n"
             "INVARIANT Sound\nINVARIANT IllRaises\nINVARIANT Emit\nPROPERTY NoMutation\nCHECK_DEADLOCK FALSE\n%s"
             % (depth, "TRUE" if ill else "FALSE", focus, extra))
 
 
-TRACE_CFG = ("CONSTANTS\n NP = 2\n NE = 1\n Depth = 0\n IllTyped = FALSE\n Focus = \"all\"\nINIT TInit\nNEXT Step\n"
+TRACE_CFG = ("CONSTANTS\n NP = 2\n NE = 1\n Depth = 0\n IllTyped = FALSE\n Sim = FALSE\n Focus = \"all\"\nINIT TInit\nNEXT Step\n"
              "INVARIANT Report\nCHECK_DEADLOCK FALSE\n")
 
 
@@ -41,8 +41,8 @@ def programs(res, tier, wd):
             SMALL.append(json.loads(rec)["h"])
     if tier == "thorough":
         # sampled depth-4 behaviours
-        r = tlc("Algebra", _cfg(4, False), wd, workers=1,
-                simulate="num=60000", extra=["-depth", "5", "-seed", str(seed() + 11)])
+        r = tlc("Algebra", _cfg(4, False, sim=True), wd, workers=1,
+                simulate="num=40000", extra=["-depth", "5", "-seed", str(seed() + 11)])
         res.add_tlc("Algebra(depth 4, simulate)", r)
         seen = set()
         for rec in split_prints(r["out"]):
